@@ -1,7 +1,9 @@
 package main
 
 import (
+	"encoding/json"
 	"fmt"
+	"github.com/0xrawsec/sod/zzverif/vfs"
 	"hash/fnv"
 
 	"github.com/0xrawsec/sod/zzverif/vrt"
@@ -113,7 +115,7 @@ type Explorer struct {
 	Collect bool
 	States  [][]Op
 	seen    map[uint64]struct{}
-	quiet bool // this visit is replicated on every worker: only shard 0 counts it
+	quiet   bool // this visit is replicated on every worker: only shard 0 counts it
 }
 
 func (e *Explorer) Run() {
@@ -243,3 +245,45 @@ func (e *Explorer) visit(path []Op, extend bool) (bool, bool) {
 }
 
 func vrtTick(n int) { vrt.Tick(n) }
+
+// RunPathOn runs f on a world opened over an existing directory (golden
+// corpus): the reference model and the slots come from the entry.
+func RunPathOn(cfg Cfg, prop string, fsys *vfs.FS, ent *GoldenEntry, f func(w *World)) *PathResult {
+	var w *World
+	x := vrt.Run(vrt.Config{Sequential: true, MaxTicks: 1000}, func() {
+		w = &World{Cfg: cfg, FS: fsys, Root: dbRoot, M: NewModel(), Ever: map[string]bool{}, Dead: map[string]bool{}, prop: prop}
+		w.M.UniqueP = cfg.Index == 3
+		for u, j := range ent.Model {
+			r := &Rec{}
+			if err := json.Unmarshal([]byte(j), r); err != nil {
+				panic(err)
+			}
+			r.Initialize(u)
+			w.M.Objs[u] = r
+			w.Ever[u] = true
+		}
+		w.Slots = append([]string{}, ent.Slots...)
+		for _, u := range w.Slots {
+			w.Ever[u] = true
+			if _, ok := w.M.Objs[u]; !ok {
+				w.Dead[u] = true
+			}
+		}
+		fsys.LogOn = true
+		setGlobals(cfg)
+		// the deterministic id generator restarts with every execution: skip the ids
+		// the run that wrote the directory may have consumed (real ids are random)
+		for i := 0; i < 64; i++ {
+			vrt.NextUUID()
+		}
+		w.open()
+		if len(w.Viol) == 0 {
+			f(w)
+		}
+	})
+	res := &PathResult{W: w, Exec: x}
+	for _, p := range x.Panics {
+		w.Viol = append(w.Viol, Violation{Sig: prop + "|panic|" + normPanic(p.Value+" @ "+sodFrame(p.Stack)), What: "panic: " + p.Value + "\n" + trimStack(p.Stack), Cfg: cfg})
+	}
+	return res
+}
